@@ -7,6 +7,7 @@ import JSight.DocCursorLink
 import JSight.DocCursorSafe
 import JSight.DocCursorRej
 import JSight.SchemaObjProofs
+import JSight.SchemaObjHoist
 /-!
 # C11 — Results are deterministic, history-independent and stable: what a theorem can carry
 
@@ -433,3 +434,137 @@ end Props.C11
 #print axioms Props.C11.C11_doc_seen_is_events_on_accepted
 #print axioms Props.C11.C11_doc_check_is_rfc
 #print axioms Props.C11.C11_doc_check_history_free_rfc
+
+/-! ## The hoisting loop of the Schema-object model: fuel, reachability, the overwrite rule
+
+`SchemaObj.hoistLoop` / `hoistRound` = `loader.AddUnnamedTypes` as run by the receiver's first `compile()`. Proofs:
+`JSight/SchemaObjHoist.lean`. "Name `n` stands for object `j` in table `t`" is `t.lookup n = some j` (a Go map read). -/
+namespace Props.C11
+section schemaObjHoist
+open SchemaObj SchemaObj.Hoist
+variable {W : World}
+
+/-- for every pool and every receiver of the pool — no hypothesis on the ownership graph, so `a.AddType("@t", a)` and two
+objects adding each other are included — the hoisting loop on the fuel `fuelOf` leaves through its `len(names) == 0`
+exit (`hoistLoopO` is the loop that answers `none` when the fuel runs out), and any larger fuel computes the same table -/
+theorem C11_schema_hoist_fuel_suffices (p : Pool W) (i : Nat) (o : Obj W) (ho : p[i]? = some o) :
+    hoistLoopO (tysOf p) i (fuelOf p) [] o.types = some (hoisted p i o.types) ∧
+    ∀ k, hoistLoop (tysOf p) i (fuelOf p + k) [] o.types = hoisted p i o.types :=
+  ⟨hoistLoopO_fuelOf p i o ho, hoistLoop_more_fuel p i o ho⟩
+
+/-- THE OVERWRITE RULE of the code. A round processes its names one after the other (`hoistName`, names sorted); processing
+`n` while it stands for `j ≠ i` makes every name `u` of `j`'s table stand for what it stands for in `j`'s table —
+whatever the root table held for `u`, the receiver's own `AddType(u, …)` included — and leaves all other names alone; the
+receiver itself (`j = i`) contributes nothing. So of two objects registered under one name on different chains the one
+copied LAST wins, and a name is expanded once, with the object it stands for at the moment it is processed. -/
+theorem C11_schema_hoist_overwrite_rule (tys : Nat → Table) (i : Nat) (ns : List String) (root : Table) :
+    hoistRound tys i ns root = ns.foldl (hoistName tys i) root ∧
+    ∀ (n : String) (j : Nat), root.lookup n = some j → ∀ m,
+      (hoistName tys i root n).lookup m =
+        match (if j == i then [] else tys j).lookup m with
+        | some k => some k
+        | none => root.lookup m :=
+  ⟨hoistRound_eq tys i ns root, fun n j h m => lookup_hoistName tys i root n j h m⟩
+
+/-- the clean reading: the names of the hoisted table are exactly the names registered on some `AddType` chain from the
+receiver — FALSE for the code as it is -/
+def C11_schema_hoist_reachable_full : Prop :=
+  ∀ (W : World) (p : Pool W) (i : Nat) (o : Obj W), p[i]? = some o → ∀ n,
+    ((hoisted p i o.types).lookup n).isSome ↔ ∃ j, Reach (tysOf p) i o.types n j
+
+def mkObj (t : Table) : Obj W2 := ⟨(), false, [], none, none, none, t⟩
+/-- root 0 = {@a: 1, @b: 2}; 1 = {@b: 3} (a private `@b`); 2 = {@x: 4}; 3 = {@y: 5} -/
+def poolA : Pool W2 :=
+  [mkObj [("@a", 1), ("@b", 2)], mkObj [("@b", 3)], mkObj [("@x", 4)], mkObj [("@y", 5)], mkObj [], mkObj []]
+/-- the same with the parent called `@c` -/
+def poolC : Pool W2 :=
+  [mkObj [("@c", 1), ("@b", 2)], mkObj [("@b", 3)], mkObj [("@x", 4)], mkObj [("@y", 5)], mkObj [], mkObj []]
+
+/-- refuted on `poolA`: `@x` is registered on the chain root -@b-> 2 -@x-> 4, but `@a` is processed before `@b` and
+replaces the root's `@b` by object 3, so object 2 is never expanded (replayed on the real library) -/
+theorem C11_schema_hoist_reachable_refuted : ¬ C11_schema_hoist_reachable_full := by
+  intro h
+  have h1 := (h W2 poolA 0 (mkObj [("@a", 1), ("@b", 2)]) rfl "@x").2
+    ⟨4, .step (j := 2) (n := "@b") (.base (by rfl)) (by decide) (by rfl)⟩
+  have h2 : (hoisted poolA 0 (mkObj [("@a", 1), ("@b", 2)]).types).lookup "@x" = none := by rfl
+  rw [h2] at h1; cases h1
+
+/-- what holds for every pool and receiver: (1) every entry of the hoisted table is a registration on a chain from the
+receiver; (2) every name of the receiver's table is still a name of the hoisted table; (3) for every name `n` of the
+hoisted table some object `j` registered under `n` on a chain had its whole table copied (all its names are names of the
+hoisted table) — `j` is the object `n` stood for when it was processed, not necessarily the final one; (4) if no name is
+registered for two different objects on chains from the receiver (`Functional`), the hoisted table IS the reachability
+relation: `n` stands for `j` iff `j` is registered under `n` on a chain. -/
+theorem C11_schema_hoist_reachable_partial (p : Pool W) (i : Nat) (o : Obj W) (ho : p[i]? = some o) :
+    (∀ n j, (hoisted p i o.types).lookup n = some j → Reach (tysOf p) i o.types n j) ∧
+    (∀ n, (o.types.lookup n).isSome → ((hoisted p i o.types).lookup n).isSome) ∧
+    (∀ n, ((hoisted p i o.types).lookup n).isSome →
+      ∃ j, Reach (tysOf p) i o.types n j ∧
+        (j ≠ i → ∀ u, (((tysOf p) j).lookup u).isSome → ((hoisted p i o.types).lookup u).isSome)) ∧
+    (Functional (tysOf p) i o.types →
+      ∀ n j, (hoisted p i o.types).lookup n = some j ↔ Reach (tysOf p) i o.types n j) :=
+  ⟨(hoisted_spec p i o ho).1, (hoisted_spec p i o ho).2.1, (hoisted_spec p i o ho).2.2,
+    fun hf n j => hoisted_iff_of_functional p i o ho hf n j⟩
+
+/-! Non-vacuity. -/
+
+/-- cycles: 0 adds itself; 1 and 2 add each other. The loop ends (2 rounds for receiver 1) and the receiver's own name
+comes back through the cycle -/
+def poolCyc : Pool W2 := [mkObj [("@t", 0)], mkObj [("@f", 2)], mkObj [("@e", 1)]]
+example : fuelOf poolCyc = 4 ∧ hoisted poolCyc 0 [("@t", 0)] = [("@t", 0)] ∧
+    hoisted poolCyc 1 [("@f", 2)] = [("@f", 2), ("@e", 1)] ∧
+    hoistLoopO (tysOf poolCyc) 1 3 [] [("@f", 2)] = some [("@f", 2), ("@e", 1)] ∧
+    hoistLoopO (tysOf poolCyc) 1 2 [] [("@f", 2)] = none := ⟨by rfl, by rfl, by rfl, by rfl, by rfl⟩
+example : hoistLoopO (tysOf poolCyc) 1 (fuelOf poolCyc) [] [("@f", 2)] = some (hoisted poolCyc 1 [("@f", 2)]) :=
+  (C11_schema_hoist_fuel_suffices poolCyc 1 (mkObj [("@f", 2)]) rfl).1
+
+/-- a collision-free pool (a diamond: 3 is registered as `@u` by both 1 and 2): the hypothesis of (4) holds -/
+def poolD : Pool W2 := [mkObj [("@s", 1), ("@t", 2)], mkObj [("@u", 3)], mkObj [("@u", 3)], mkObj []]
+theorem poolD_functional : Functional (tysOf poolD) 0 [("@s", 1), ("@t", 2)] := by
+  have key : ∀ n j, Reach (tysOf poolD) 0 [("@s", 1), ("@t", 2)] n j →
+      (n = "@s" ∧ j = 1) ∨ (n = "@t" ∧ j = 2) ∨ (n = "@u" ∧ j = 3) := by
+    intro n j h
+    induction h with
+    | @base n j h =>
+      by_cases h1 : n = "@s"
+      · subst h1; exact .inl ⟨rfl, (Option.some.inj h).symm⟩
+      · by_cases h2 : n = "@t"
+        · subst h2; exact .inr (.inl ⟨rfl, (Option.some.inj h).symm⟩)
+        · rw [lookup_cons_ne _ _ _ _ h1, lookup_cons_ne _ _ _ _ h2] at h; cases h
+    | @step n j u k _ hji hk ih =>
+      have hu : ∀ (t : Table), t = [("@u", 3)] → t.lookup u = some k → u = "@u" ∧ k = 3 := by
+        intro t ht h
+        subst ht
+        by_cases h1 : u = "@u"
+        · subst h1; exact ⟨rfl, (Option.some.inj h).symm⟩
+        · rw [lookup_cons_ne _ _ _ _ h1] at h; cases h
+      rcases ih with ⟨_, rfl⟩ | ⟨_, rfl⟩ | ⟨_, rfl⟩
+      · exact .inr (.inr (hu _ rfl hk))
+      · exact .inr (.inr (hu _ rfl hk))
+      · cases hk
+  intro n j j' h h'
+  rcases key n j h with ⟨rfl, rfl⟩ | ⟨rfl, rfl⟩ | ⟨rfl, rfl⟩ <;>
+    rcases key _ j' h' with ⟨e, rfl⟩ | ⟨e, rfl⟩ | ⟨e, rfl⟩ <;> first | rfl | (exact absurd e (by decide))
+example : hoisted poolD 0 [("@s", 1), ("@t", 2)] = [("@s", 1), ("@t", 2), ("@u", 3)] := by rfl
+example : Reach (tysOf poolD) 0 [("@s", 1), ("@t", 2)] "@u" 3 :=
+  ((C11_schema_hoist_reachable_partial poolD 0 (mkObj [("@s", 1), ("@t", 2)]) rfl).2.2.2 poolD_functional "@u" 3).1
+    (by rfl)
+
+/-- name collision, and the ORDER of the names decides (observation; both replayed on the real library): the root's own
+`@b` (object 2) loses against the private `@b` (object 3) of the object added as `@a` / `@c` in both pools. With the parent
+called `@a` the replacement happens BEFORE `@b` is processed: object 3 is expanded (`@y`), object 2 never (`@x` is not in
+the table). With the parent called `@c` it happens AFTER: object 2 was expanded (`@x`), `@b` now stands for object 3 whose
+`@y` is never hoisted (the library then answers `Type "@y" not found`). -/
+example : hoisted poolA 0 [("@a", 1), ("@b", 2)] = [("@a", 1), ("@b", 3), ("@y", 5)] ∧
+    hoisted poolC 0 [("@c", 1), ("@b", 2)] = [("@c", 1), ("@b", 3), ("@x", 4)] := ⟨by rfl, by rfl⟩
+/-- the rule on one step: processing `@a` (object 1) replaces the root's `@b` -/
+example : (hoistName (tysOf poolA) 0 [("@a", 1), ("@b", 2)] "@a").lookup "@b" = some 3 := by
+  rw [(C11_schema_hoist_overwrite_rule (tysOf poolA) 0 [] _).2 "@a" 1 (by rfl)]; rfl
+
+end schemaObjHoist
+end Props.C11
+
+#print axioms Props.C11.C11_schema_hoist_fuel_suffices
+#print axioms Props.C11.C11_schema_hoist_overwrite_rule
+#print axioms Props.C11.C11_schema_hoist_reachable_refuted
+#print axioms Props.C11.C11_schema_hoist_reachable_partial
